@@ -342,6 +342,79 @@ let run_case () =
    | Stack_overflow -> Printf.printf "E %s stack-overflow\n" cid);
   Printf.printf "X %s\n" cid
 
+(* ---------- simulator cases ---------- *)
+let read_bandit (arms : int list) : (float, int, string) mab =
+  expect "SEED"; let seed = next_int () in
+  expect "LP"; let lp = read_lp arms in
+  expect "NP";
+  let imp : (float, int, string) imp =
+    match next () with
+    | "none" -> (match lp with LCf s -> ICf s | LLin s -> ILin s)
+    | "radius" -> let r = next_float () in let m = read_metric () in let p = read_optlist () in let kf = next_bool () in
+        INbr (nbr_init (NRadius r) m p kf arms lp)
+    | "knearest" -> let k = next_int () in let m = read_metric () in
+        INbr (nbr_init (NKNearest (nat_of_int k)) m None false arms lp)
+    | "lsh" -> let nd = next_int () in let nt = next_int () in let p = read_optlist () in let kf = next_bool () in
+        INbr (nbr_init (NLsh (nat_of_int nd, nat_of_int nt)) Euclidean p kf arms lp)
+    | s -> failwith ("sim np " ^ s) in
+  { m_imp = imp; m_fitted = false; m_rng = "S" ^ string_of_int seed }
+
+let read_batch () : (float, int) batch =
+  let ds = next_ints () in let rs = next_floats () in let cx = read_ctx () in
+  { b_ds = ds; b_rs = rs; b_cx = cx }
+
+let read_tape () =
+  expect "TAPE";
+  Hashtbl.reset tape;
+  let n = next_int () in
+  for _ = 1 to n do
+    let key = next () in
+    let params = next_floats () in
+    let kind = next () in
+    (match kind with
+     | "r" -> let a = next_floats () in Hashtbl.add tape key { params; ransw = a; zansw = [] }
+     | "z" -> let a = next_ints () in Hashtbl.add tape key { params; ransw = []; zansw = a }
+     | s -> failwith ("tape kind " ^ s))
+  done
+
+let run_simcase () =
+  expect "SIMCASE";
+  let cid = next () in
+  (match next () with "exact" -> exact_params := true | "tol" -> exact_params := false | s -> failwith ("mode " ^ s));
+  expect "ARMS"; let arms = next_ints () in
+  expect "NB"; let nb = next_int () in
+  let ms = List.init nb (fun _ -> read_bandit arms) in
+  expect "TRAIN"; let train = read_batch () in
+  let train_orcs = List.init nb (fun _ -> read_oracle ()) in
+  let online = (match next () with "offline" -> false | "online" -> true | s -> failwith ("sim mode " ^ s)) in
+  let nbat = next_int () in
+  let batches = ref [] and orcs = ref [] in
+  for _ = 1 to nbat do
+    let b = read_batch () in
+    let o = List.init nb (fun _ -> let a = read_oracle () in let b = read_oracle () in let c = read_oracle () in ((a, b), c)) in
+    batches := b :: !batches; orcs := o :: !orcs
+  done;
+  let batches = List.rev !batches and orcs = List.rev !orcs in
+  read_tape ();
+  expect "END";
+  (try
+     let trained = sim_train_all fnum (=) tape_rng ms train train_orcs in
+     let res =
+       if online then sim_online fnum (=) tape_rng trained O batches orcs
+       else (match batches, orcs with
+             | [b], [o] -> sim_offline fnum (=) tape_rng trained b o
+             | _ -> failwith "offline needs one batch") in
+     List.iteri (fun i (_, rep) ->
+         match rep with
+         | None -> Printf.printf "R %s %d failed\n" cid i
+         | Some (preds, exps) ->
+             Printf.printf "R %s %d preds %s\n" cid i (String.concat " " (List.map parm preds));
+             Printf.printf "S %s %d exps %s\n" cid i (String.concat " | " (List.map pexp exps))) res
+   with
+   | Model_error msg -> Printf.printf "E %s %s\n" cid msg
+   | Stack_overflow -> Printf.printf "E %s stack-overflow\n" cid);
+  Printf.printf "X %s\n" cid
+
 (* exhaustive table of the partition model: one line per (n, n_jobs) *)
 let print_partitions cpu nmax jmin jmax =
   for n = 1 to nmax do
@@ -360,5 +433,5 @@ let () =
     print_partitions (int_of_string Sys.argv.(2)) (int_of_string Sys.argv.(3)) (int_of_string Sys.argv.(4)) (int_of_string Sys.argv.(5))
   else begin
     load Sys.argv.(1);
-    while not (eof ()) do run_case () done
+    while not (eof ()) do (if peek () = "SIMCASE" then run_simcase () else run_case ()) done
   end
